@@ -154,6 +154,8 @@ def check(pid, tier, seed, nshards=None) -> int:
     # violations
     rdir = core.OUT / "replay" / pid
     rdir.mkdir(parents=True, exist_ok=True)
+    for old_file in rdir.glob("*.json"):
+        old_file.unlink()
     findings = {f["id"]: f for f in core.load_findings()}
     for fid, n in sorted(m["known"].items()):
         f = findings.get(fid, {})
